@@ -36,8 +36,33 @@ FT2 = FUN(REAL, (INT,))
 BASIS = [BOOL, INT, REAL, STRING, BV(1), BV(4), BV(8), ARR(INT, INT), ARR(BV(4), BV(8)), ARR(INT, BOOL), S1, FT, FT2]
 
 
-def basis_term(env, ty, k=0):
-    return pys.build(env, sym("x%s_%d" % (tystr(ty), k), ty))
+def basis_term(env, ty, k=0, form="symbol"):
+    """The k-th argument of sort `ty`: a symbol, a constant (constructors have folding shortcuts that must
+    not bypass the typing rules) or a compound term (an ITE over two symbols)."""
+    x = sym("x%s_%d" % (tystr(ty), k), ty)
+    if form == "constant":
+        if ty == BOOL:
+            return pys.build(env, B.const(BOOL, k % 2 == 0))
+        if ty == INT:
+            return pys.build(env, B.const(INT, k + 2))
+        if ty == REAL:
+            return pys.build(env, B.const(REAL, Fraction(k + 2)))
+        if ty == STRING:
+            return pys.build(env, B.const(STRING, "ab"[:k % 2 + 1]))
+        if is_bv(ty):
+            return pys.build(env, B.const(ty, (k + 1) % (1 << ty[1])))
+        if is_arr(ty) and ty[2] in (INT, BOOL) or (is_arr(ty) and is_bv(ty[2])):
+            d = B.const(ty[2], (k % 2 == 0) if ty[2] == BOOL else (k + 1) % (1 << ty[2][1]) if is_bv(ty[2]) else k + 2)
+            return pys.build(env, ("ARRAY_VALUE", (ty[1],), (d,)))
+        return pys.build(env, x)
+    if form == "term" and not is_fun(ty):
+        c = sym("c_%d" % k, BOOL)
+        y = sym("y%s_%d" % (tystr(ty), k), ty)
+        return pys.build(env, ("ITE", (), (c, x, y)))
+    return pys.build(env, x)
+
+
+FORMS = ("symbol", "constant", "term")
 
 
 # ---- expected signatures: fn(list of types[, params]) -> type or None (= ill-typed)
@@ -184,6 +209,11 @@ def applications():
             yield ("Pow", (t, et), ("const-exp",),
                    lambda m, a, et=et: m.Pow(a[0], m.Int(2) if et == INT else m.Real(2)),
                    REAL if t == et else None, True)
+    for t in BASIS:
+        for et in (BOOL, STRING, BV(4), BV(8)):
+            yield ("Pow", (t, et), ("const-exp:" + tystr(et),),
+                   lambda m, a, et=et: m.Pow(a[0], pys.build_const(m.env, et, "a" if et == STRING else 1)),
+                   None, True)
     # quantifiers: variables x body
     for q in ("ForAll", "Exists"):
         for vt in BASIS:
@@ -227,16 +257,21 @@ def shard_constructors(shard, nshards):
     env = Environment()
     with env:
         mgr = env.formula_manager
-        for idx, (name, ts, ps, build, expected, must_reject) in enumerate(applications()):
+        for idx, (name, ts, ps, build, expected, must_reject, form) in enumerate(
+                (a + (fm,)) for a in applications() for fm in FORMS):
             if idx % nshards != shard:
                 continue
+            if form != "symbol" and name in ("ForAll", "Exists"):
+                continue                      # binders are symbols (the non-symbol class is generated separately)
             args = []
             cnt = {}
             for t in ts:
                 k = cnt.get(t, 0)
                 cnt[t] = k + 1
-                args.append(basis_term(env, t, k))
-            label = "%s%s(%s)" % (name, list(ps) if ps else "", ", ".join(tystr(t) for t in ts))
+                args.append(basis_term(env, t, k, form))
+            label = "%s%s(%s)%s" % (name, list(ps) if ps else "", ", ".join(tystr(t) for t in ts),
+                                    "" if form == "symbol" else " args=" + form)
+            run.cls("args:" + form)
             try:
                 r = build(mgr, args)
                 raised = None
@@ -252,7 +287,7 @@ def shard_constructors(shard, nshards):
                 run.cls("boundary:function-typed-argument")
                 if raised is None and pys.from_ptype(r.get_type()) != expected:
                     run.fail({"subcheck": "constructor:type", "ctor": name},
-                             {"ctor": name, "types": list(ts), "params": list(ps)},
+                             {"ctor": name, "types": list(ts), "params": list(ps), "form": form},
                              "%s: get_type() %r expected %r" % (label, r.get_type(), expected))
                 continue
             if raised is not None:
@@ -264,7 +299,7 @@ def shard_constructors(shard, nshards):
                     continue
                 run.fail({"subcheck": "constructor:accepted-illtyped", "ctor": name,
                           "class": (ps[0] if ps and isinstance(ps[0], str) else "fun-arg" if any(is_fun(t) for t in ts) else "sorts")},
-                         {"ctor": name, "types": list(ts), "params": list(ps)},
+                         {"ctor": name, "types": list(ts), "params": list(ps), "form": form},
                          "%s returned %s although the application is ill-typed" % (label, r))
                 continue
             run.cls("accepted-welltyped")
@@ -274,12 +309,12 @@ def shard_constructors(shard, nshards):
                 t = reftype(b)
             except (IllTyped, ValueError, AssertionError) as e:
                 run.fail({"subcheck": "constructor:result-illtyped", "ctor": name},
-                         {"ctor": name, "types": list(ts), "params": list(ps)}, "%s -> %s: %s" % (label, r, e))
+                         {"ctor": name, "types": list(ts), "params": list(ps), "form": form}, "%s -> %s: %s" % (label, r, e))
                 continue
             got = pys.from_ptype(r.get_type())
             if t != expected or got != expected:
                 run.fail({"subcheck": "constructor:type", "ctor": name},
-                         {"ctor": name, "types": list(ts), "params": list(ps)},
+                         {"ctor": name, "types": list(ts), "params": list(ps), "form": form},
                          "%s: reference type %r, structural type %r, get_type() %r" % (label, expected, t, got))
     return run
 
